@@ -202,6 +202,11 @@ class Ranges:
                 if s.k == "assign" and not s.lhs[1] and s.rv.k in ("ref", "rawptr") and s.lhs[0] not in b.names:
                     if b.single_def(s.lhs[0]) is not None:
                         self.ptr[s.lhs[0]] = s.rv.place
+                elif s.k == "assign" and not s.lhs[1] and s.rv.k == "ref" and s.lhs[0] in b.names and s.lhs[0] > b.argc:
+                    # a named reference that is bound exactly once (`(size, _, al) if size % al != 0` binds `size`, `al` by reference in the guard)
+                    ds_ = b.defs().get(s.lhs[0], [])
+                    if len(ds_) == 1 and ds_[0][2] == "whole":
+                        self.ptr[s.lhs[0]] = s.rv.place
 
     def path(self, pl, depth=12):
         """canonical path string of a place (through reference temps)"""
